@@ -458,6 +458,12 @@ func r2Locksets(c *RuleCtx, specs []*guardSpec) {
 		}
 		// closures: their "callers" are where they are invoked; a `go func(){}` body is an entry point
 		isEntry := len(callers) == 0 || r.fn.Object() != nil && r.fn.Object().Exported() && r.fn.Signature.Recv() == nil
+		// an exported method of an exported type is an entry point whoever else calls it
+		if !isEntry && r.fn.Object() != nil && r.fn.Object().Exported() && r.fn.Signature.Recv() != nil {
+			if rn := namedOf(r.fn.Signature.Recv().Type()); rn != nil && rn.Obj().Exported() {
+				isEntry = true
+			}
+		}
 		for _, cs := range callers {
 			if _, isGo := cs.(*ssa.Go); isGo {
 				isEntry = true
